@@ -350,7 +350,12 @@ def main():
     os.makedirs(gen_dir, exist_ok=True)
     with Lock("lake"):
         rc, out = sh([harness, "tables", os.path.join(gen_dir, "Tables.lean")])
-    if rc != 0:
+    table_panic = ""
+    if rc == 3 and "TABLE-PROBE-PANICKED" in out:
+        # the real code panicked while its tables were being probed (single-byte / tiny inputs): that is a
+        # crash of a public entry point; the check goes on with the previous tables
+        table_panic = out.strip().replace("\n", "; ")
+    elif rc != 0:
         print(out[-3000:]); print("ERROR: table measurement failed"); sys.exit(2)
 
     pr = proofs(prop, tier == "thorough")
@@ -365,6 +370,8 @@ def main():
     violations = []       # (kind, case, detail, concrete: bool)
     known_hits = []
 
+    if table_panic:
+        violations.append(("panic", "tables", "the implementation panicked while its tables were measured with exhaustive one-byte probes: " + table_panic, True))
     if corr.get("died"):
         violations.append(("hang" if corr.get("hang") else "abort", corr.get("case", ""), "the harness process died while executing this case (abort / stack overflow / hang watchdog), rc=%s: %s" % (corr.get("rc"), corr["log"][-300:]), True))
         corr = dict(evaluations=0, distinct_nontrivial=0, disagreements=[], n_disagreements=0, stats=dict(hist={}, gen_hist={}, violations=[], samples=[]), distinct_results=0)
